@@ -40,6 +40,7 @@ type Env struct {
 	vc        *VC
 	cur, old  *State
 	iterOld   *State
+	inIterOld bool // evaluating the argument of iterold(...)
 	vars      map[string]SVal
 	loop      *loopInfo
 	atHeader  bool
@@ -178,6 +179,12 @@ func (e *Env) eval(x Expr) SVal {
 		v := e.eval(n.X)
 		i := e.evalInt(n.I)
 		nv := e.eval(n.V)
+		if v.typ == nil && strings.HasPrefix(v.sort, "(Array") {
+			// a mathematical array (e.g. _visited): indexed by its key sort
+			r := v
+			r.t = fmt.Sprintf("(store %s %s %s)", v.t, e.eval(n.I).t, nv.t)
+			return r
+		}
 		switch t := v.typ.Underlying().(type) {
 		case *types.Slice:
 			_ = t
@@ -238,10 +245,25 @@ func (e *Env) evalIdent(name string) SVal {
 	case "_visited":
 		if e.loop != nil {
 			for _, mi := range vc.mapItersOf(e.loop) {
-				return SVal{t: mi.visited, sort: "(Array " + vc.d.sortOf(mi.mt.Key()) + " Bool)", typ: nil}
+				vt := mi.visited
+				if e.inIterOld && mi.prevVisited != "" {
+					vt = mi.prevVisited // the set at the beginning of the iteration
+				}
+				return SVal{t: vt, sort: "(Array " + vc.d.sortOf(mi.mt.Key()) + " Bool)", typ: nil}
 			}
 		}
 		e.fail("_visited outside a map range loop")
+	case "_key":
+		// the key produced by the current iteration of a "for k := range m" loop (meaningful in back-edge hints)
+		if e.loop != nil {
+			for _, mi := range vc.mapItersOf(e.loop) {
+				if mi.lastKey == "" {
+					e.fail("unknown name \"_key\" (no iteration yet)")
+				}
+				return e.mk(mi.lastKey, mi.mt.Key(), nil)
+			}
+		}
+		e.fail("_key outside a map range loop")
 	case "_range":
 		// the slice a "for ... range s" loop iterates over
 		if e.loop == nil {
@@ -517,6 +539,9 @@ func (e *Env) kTerm() string {
 		}
 	}
 	for _, mi := range vc.mapItersOf(e.loop) {
+		if e.inIterOld && mi.prevCount != "" {
+			return mi.prevCount
+		}
 		return mi.count
 	}
 	e.fail("_k: loop %d is not a range loop", e.loop.ordinal)
@@ -606,7 +631,11 @@ func (e *Env) parseType(s string) types.Type {
 		fmt.Sscanf(s[1:j], "%d", &n)
 		el := e.parseType(s[j+1:])
 		if el == nil {
-			el = types.Typ[types.Int]
+			if strings.TrimSpace(s[j+1:]) == "bool" {
+				el = types.Typ[types.Bool]
+			} else {
+				el = types.Typ[types.Int]
+			}
 		}
 		return types.NewArray(el, n)
 	}
@@ -896,7 +925,7 @@ func (e *Env) evalIndex(n *EIndex) SVal {
 // slice header well-formedness) for a term read from the heap inside a contract.
 func (e *Env) typeSide(term string, typ types.Type) {
 	switch typ.Underlying().(type) {
-	case *types.Basic, *types.Slice:
+	case *types.Basic, *types.Slice, *types.Interface, *types.Pointer, *types.Map, *types.Signature, *types.Chan:
 		f := e.vc.d.rangeAssume(term, typ, "", 0)
 		if f != "" {
 			e.addSide(f, term)
@@ -1116,6 +1145,23 @@ func (e *Env) evalCall(n *ECall) SVal {
 			v.st = e.old
 		}
 		return v
+	case "heapof":
+		// heapof(all(T).f): the memory of field f of all objects of type T in the current state, as a mathematical
+		// array from object references to field values (lets a spec function or lemma take memory as a parameter)
+		locs := e.evalLocs(n.Args[0])
+		if len(locs) != 1 || !locs[0].whole || locs[0].ghost != nil {
+			e.fail("heapof expects all(T).f")
+		}
+		sel := n.Args[0].(*ESelect)
+		T := e.parseType(typeArg(sel.X.(*ECall).Args[0]))
+		st, _ := isStruct(T)
+		var ft types.Type
+		for i := 0; i < st.NumFields(); i++ {
+			if st.Field(i).Name() == sel.Name {
+				ft = st.Field(i).Type()
+			}
+		}
+		return SVal{t: vc.heap(e.cur, locs[0].heap, locs[0].hsort), typ: types.NewArray(ft, 1), sort: locs[0].hsort}
 	case "now":
 		// now(v): the value v (possibly computed in an old state) as a reference into the current state:
 		// now(old(p)).f reads field f of the object old(p) in the current state
@@ -1163,6 +1209,9 @@ func (e *Env) evalCall(n *ECall) SVal {
 		if e.iterOld == nil || e.loop == nil {
 			e.fail("iterold outside loop preservation")
 		}
+		saved := e.inIterOld
+		e.inIterOld = true
+		defer func() { e.inIterOld = saved }()
 		return e.withPhis(e.loop.hdrPhis, e.iterOld, func() SVal { return e.eval(n.Args[0]) })
 	case "forall", "exists":
 		return e.evalQuant(id.Name, n)
@@ -1280,7 +1329,15 @@ func (e *Env) evalCall(n *ECall) SVal {
 		srt := vc.d.sortOf(T)
 		vc.d.declFun(bn, fmt.Sprintf("(declare-fun %s (%s) Int)", bn, srt))
 		vc.d.declFun("un"+bn, fmt.Sprintf("(declare-fun un%s (Int) %s)", bn, srt))
-		return e.mk(fmt.Sprintf("(un%s %s)", bn, v.t), T, v.st)
+		ut := fmt.Sprintf("(un%s %s)", bn, v.t)
+		if strings.Contains(v.t, "(select ") {
+			// a reference held by an interface value that is stored in the memory of a state was allocated before that state
+			switch T.Underlying().(type) {
+			case *types.Pointer, *types.Map:
+				e.addSide(fmt.Sprintf("(< (base %s) %s)", ut, e.stOf(v).alloc), "")
+			}
+		}
+		return e.mk(ut, T, v.st)
 	case "closureof":
 		// closureof(f, "name"): function value f is a closure of the function with that relative name
 		v := e.eval(n.Args[0])
